@@ -138,6 +138,8 @@ func init() {
 			Run: func(P *Program, R *Report) { signerIntervalRule(P, R) }},
 		Rule{ID: "C05.d", Explain: "signer: v = 2^(Lv-1) + RandomBigInt(Lv-1); A = Q^(e^-1 mod Order) mod N with Q = Z * (S^v * R(ms) * U)^-1 mod N as a symbolic term; both inverses are checked before use.",
 			Run: func(P *Program, R *Report) { signerTermsRule(P, R) }},
+		Rule{ID: "C05.i", Explain: "verification is a pure check: the arithmetic helpers it uses (ModPow, ModInverse, RepresentToBases, ...) do not modify the integers they are given, so a signature that verified once verifies again (same rule as C19.k).",
+			Run: func(P *Program, R *Report) { pureInputsRule(P, R, "C05.i") }},
 		Rule{ID: "C05.e", Explain: "Randomize: A' = A*S^r mod N, V' = V - E*r, E' a copy of E, r = RandomBigInt(LRA) drawn in this call (symbolic terms).",
 			Run: func(P *Program, R *Report) { randomizeRule(P, R) }},
 		Rule{ID: "C05.g", Explain: "valid signatures verify: CLSignature.Verify rejects for the specified reasons only - e outside its interval, e not prime, an error from RepresentToPublicKey or ModPow, a nil component - and otherwise returns the outcome of the equation; any other rejecting branch (e.g. a size limit on v, which randomisation legitimately enlarges) is reported.",
@@ -330,8 +332,9 @@ func signerTermsRule(P *Program, R *Report) {
 	R.decide(rule, kCLSign+":inverses", "both inversions (mod N and mod Order) go through the checked helper", n == 2, fmt.Sprintf("%d", n), P.Pos(fn.Pos()))
 }
 
-func randomizeRule(P *Program, R *Report) {
-	rule := "C05.e"
+func randomizeRule(P *Program, R *Report) { randomizeRuleAs(P, R, "C05.e") }
+
+func randomizeRuleAs(P *Program, R *Report, rule string) {
 	fn := mustFunc(P, R, rule, kCLRandomize)
 	if fn == nil {
 		return
